@@ -59,17 +59,30 @@ def build():
     log(f"[build] ok in {time.time()-t0:.1f}s")
 
 
+# real-time budget of one harness process (set per tier by bin/check): the scenarios finish in a
+# small fraction of it; a process still running then is stuck in the code under test (a blocking
+# lock held for ever, a task that never yields) - data about the code, like a crash
+HARNESS_TIMEOUT = 900
+
+
 def harness(scenario, **kw):
     """Run one harness scenario; returns its SUMMARY object."""
+    timeout = kw.pop("_timeout", HARNESS_TIMEOUT)
     args = [BIN, scenario] + [f"{k}={v}" for k, v in kw.items()]
-    rc, out = sh(args, timeout=kw.pop("_timeout", 3600), cwd=HARNESS,
+    rc, out = sh(args, timeout=timeout, cwd=HARNESS,
                  env={"RUST_BACKTRACE": "0", "RUST_LIB_BACKTRACE": "0"})
+    if rc == 124:
+        raise HarnessCrash(scenario, "timeout",
+                           f"the harness process did not finish within {timeout} s of real time (scenarios of this "
+                           f"tier take a small fraction of that); arguments {kw}; last output: " + out[-600:])
     summ = None
     for line in out.splitlines():
         if line.startswith("SUMMARY "):
             summ = json.loads(line[len("SUMMARY "):])
     if summ is None:
-        if rc < 0 or rc in (132, 134, 136, 139):
+        # killed by a signal, or rc 101: a panic unwound out of the harness' main thread, which in
+        # the in-process replay scenarios means the code under test panicked
+        if rc < 0 or rc in (101, 132, 134, 136, 139):
             raise HarnessCrash(scenario, rc, out[-1500:])
         log(out[-4000:])
         raise ToolError(f"harness {scenario} produced no summary (rc={rc})")
